@@ -9,9 +9,56 @@ package socketace
 //@ ghost G_snap_skipverify(c interface{}) bool
 
 // ---- C05: the client verifies the server against the upstream host name with the configured trust settings
+// the carrier under a session is TLS: a handshaken tls.Conn, possibly inside the repository's own wrappers,
+// or a websocket dialled with wss
+//@ go func carrierIsTls(c net.Conn) bool {
+//@    switch v := c.(type) {
+//@    case *tls.Conn: return G_istls(v)
+//@    case *streams.WebsocketTunnelConnection: return G_istls(v.Conn)
+//@    case *streams.NamedConnection:
+//@       if s, ok := v.Connection.(*streams.SafeConnection); ok {
+//@          if t, ok := s.Conn.(*tls.Conn); ok { return G_istls(t) }
+//@       }
+//@    }
+//@    return false
+//@ }
+
+//@ pred hasCap(caps []string, c string) := exists i :: 0 <= i && i < len(caps) && strings.ToUpper(caps[i]) == strings.ToUpper(c)
+
+//@ func (cc *ClientConnection) containsCapability
+//@   property C04
+//@   safe
+//@   terminates
+//@   pure
+//@   ensures result == hasCap(caps, cap)                          :membership_ignoring_case
+//@   loop 1 vars iter int, rng []string, cap string
+//@   loop 1 invariant forall j :: 0 <= j && j < iter ==> strings.ToUpper(rng[j]) != cap
+
+//@ func (cc *ClientConnection) Secure
+//@   property C04, C16
+//@   pure
+//@   ensures result == cc.secure
+
+//@ func (cc *ClientConnection) upgrade
+//@   property C04, C06
+//@   safe
+//@   requires conn != nil && conn.Reader != nil && conn.Connection != nil
+//@   modifies conn.*, conn.Reader.*, cc.secure, cc.securityTech, heap(crypto/tls.Config.ServerName)
+//@   ensures err == nil ==> result != nil
+//@   ensures err == nil && shouldStartTls ==> cc.secure && cc.securityTech == SecurityTls        :offered_starttls_means_tls_or_no_session
+//@   ensures err == nil && !shouldStartTls ==> cc.secure == old(cc.secure) && cc.securityTech == old(cc.securityTech)
+
 //@ func NewClientConnection
 //@   property C05
-//@   requires G_hostonly(host)                                   :server_name_is_host_only
+//@   requires G_hostonly(host) || host == ""                     :server_name_is_host_only
+//@   property C04, C05, C06, C16
+//@   ensures err == nil ==> result != nil && result.Connection != nil
+//@   ensures err != nil ==> result == nil
+//@   property C04
+//@   requires secure ==> carrierIsTls(c)                          :secure_flag_only_over_tls_carrier
+//@   ensures err == nil && secure ==> result.secure && result.securityTech == SecurityUnderlying
+//@   ensures err == nil && !secure && hasCap(result.capabilities, CapabilityStartTls) ==> result.secure && result.securityTech == SecurityTls    :offered_starttls_is_taken_or_no_session
+//@   ensures err == nil && !secure && !hasCap(result.capabilities, CapabilityStartTls) ==> !result.secure && result.securityTech == SecurityNone  :plaintext_reported_as_insecure
 
 //@ iface (github.com/bokysan/socketace/v2/internal/util/cert.TlsConfig).GetTlsConfig (m cert.TlsConfig) (result *tls.Config, err error)
 //@   pure
@@ -21,8 +68,101 @@ package socketace
 //@   property C05, C04
 //@   safe
 //@   requires conn != nil
+//@   modifies conn.*, heap(crypto/tls.Config.ServerName)
 //@   callsite GetTlsConfig#1 (conf *tls.Config, e error) assume e == nil ==> G_snap_skipverify(conf) == conf.InsecureSkipVerify "ghost snapshot of the verification setting the certificate manager returned"
 //@   callsite tls.Client#1 (tlsConn *tls.Conn, tlsConfig *tls.Config) assert tlsConfig.ServerName == cc.host      :server_name_is_the_upstream_host
 //@   callsite tls.Client#1 (tlsConn *tls.Conn, tlsConfig *tls.Config) assert cc.manager != nil ==> tlsConfig.InsecureSkipVerify == G_snap_skipverify(tlsConfig)      :verification_setting_untouched
 //@   callsite tls.Client#1 (tlsConn *tls.Conn, tlsConfig *tls.Config) assert cc.manager == nil ==> !tlsConfig.InsecureSkipVerify      :verification_on_without_manager
 //@   ensures err == nil ==> result != nil                                                                          :connection_only_after_handshake
+
+// ===================================================================================================
+// C06: the session handshake parses arbitrary bytes without crashing and admits only well-formed peers
+
+//@ func (sar *Request) parseRequestLine
+//@   property C06
+//@   safe
+//@   pure
+//@   ensures err == nil ==> len(method) + len(requestURI) + len(proto) + 2 == len(line)        :three_parts_two_separators
+//@   ensures err != nil ==> len(method) == 0 && len(requestURI) == 0 && len(proto) == 0
+
+//@ func (sar *Response) parseResponseLine
+//@   property C06
+//@   safe
+//@   pure
+//@   ensures err != nil ==> len(proto) == 0 && statusCode == 0
+
+//@ func readHeader
+//@   property C06
+//@   safe
+//@   requires conn != nil
+//@   modifies conn.*
+//@   ensures err == nil ==> result1 != nil                                       :headers_or_error
+
+//@ func (sar *Request) String
+//@   property C06
+//@   safe
+//@   pure
+//@ func (sar *Response) String
+//@   property C06
+//@   safe
+//@   pure
+//@ func (sar *Request) prepareFirstLine
+//@   property C06
+//@   safe
+//@   pure
+//@ func (sar *Response) prepareFirstLine
+//@   property C06
+//@   safe
+//@   pure
+
+//@ func (sar *Request) Write
+//@   property C06
+//@   safe
+//@   requires c != nil
+//@   modifies c.*
+//@ func (sar *Response) Write
+//@   property C06
+//@   safe
+//@   requires c != nil
+//@   modifies c.*
+
+//@ func (sar *Request) Read
+//@   property C06
+//@   safe
+//@   requires c != nil
+//@   modifies c.*, sar.Method, sar.URL, sar.Proto, sar.Headers
+//@   ensures err == nil ==> sar.Headers != nil                                   :headers_available_after_success
+//@ func (sar *Response) Read
+//@   property C06
+//@   safe
+//@   requires c != nil
+//@   modifies c.*, sar.Proto, sar.StatusCode, sar.Status, sar.Headers
+//@   ensures err == nil ==> sar.Headers != nil                                   :headers_available_after_success
+
+//@ func (sc *ServerConnection) negotiateVersion
+//@   property C06
+//@   safe
+//@   terminates
+//@   pure
+
+//@ func (sc *ServerConnection) handshake
+//@   property C06, C04
+//@   safe
+//@   requires conn != nil && conn.Reader != nil && conn.Connection != nil
+//@   requires !sc.supportTls
+//@   ensures sc.supportTls ==> sc.manager != nil && !sc.secure                   :starttls_offered_only_in_clear_with_manager
+//@   ensures sc.secure == old(sc.secure) && sc.securityTech == old(sc.securityTech) && sc.manager == old(sc.manager)
+
+//@ func (sc *ServerConnection) upgrade
+//@   property C06, C04
+//@   safe
+//@   requires conn != nil && conn.Reader != nil && conn.Connection != nil
+//@   requires sc.supportTls ==> sc.manager != nil && !sc.secure
+//@   ensures err == nil ==> result != nil                                                              :session_only_with_connection
+//@   ensures err == nil && sc.secure && !old(sc.secure) ==> sc.securityTech == SecurityTls            :upgraded_means_tls
+
+//@ func (cc *ClientConnection) handshake
+//@   property C06, C04
+//@   safe
+//@   requires conn != nil && conn.Reader != nil && conn.Connection != nil
+//@   modifies conn.*, conn.Reader.*, cc.negotiatedVersion, cc.capabilities, cc.capabilities[*]
